@@ -190,6 +190,8 @@ DigitArg(x, base) ==
       [] x.t = "num"   -> IF x.d # 1 \/ x.n < 0 THEN AErr("#NUM!") ELSE FromDigits(NatToCodes(x.n), base)
       [] x.t = "dec"   -> LET n == DecNorm(x) IN
                           IF n.neg THEN AErr("#NUM!") ELSE FromDigits(Force([i \in 1..Len(n.dg) |-> CP0 + n.dg[i]]), base)
+      \* a number with a fractional part, given by its digits (however many significant digits it has): the point is no digit
+      [] x.t = "decfrac" -> AErr("#NUM!")
       [] x.t = "bool"  -> AErr("#VALUE!")
       [] x.t = "blank" -> ABits(Zeros(Width(base)))
       [] OTHER         -> AOpen
